@@ -12,14 +12,19 @@ from harness import blobs
 
 
 class Cfg:
-    __slots__ = ('level', 'joliet', 'rr', 'udf', 'xa')
+    __slots__ = ('level', 'joliet', 'rr', 'udf', 'xa', 'extra')
 
-    def __init__(self, level=1, joliet=None, rr=None, udf=False, xa=False):
+    def __init__(self, level=1, joliet=None, rr=None, udf=False, xa=False, extra=None):
         self.level = level
         self.joliet = joliet
         self.rr = rr
         self.udf = udf
         self.xa = xa
+        # further keyword arguments of PyCdlib.new() (volume descriptor fields); JSON-able
+        self.extra = dict(extra) if extra else {}
+
+    def with_extra(self, extra):
+        return Cfg(self.level, self.joliet, self.rr, self.udf, self.xa, extra)
 
     def new_kwargs(self):
         kw = {'interchange_level': self.level}
@@ -31,17 +36,21 @@ class Cfg:
             kw['udf'] = '2.60'
         if self.xa:
             kw['xa'] = True
+        kw.update(self.extra)
         return kw
 
     def key(self):
         return (self.level, self.joliet, self.rr, self.udf, self.xa)
 
     def to_json(self):
-        return {'level': self.level, 'joliet': self.joliet, 'rr': self.rr, 'udf': self.udf, 'xa': self.xa}
+        d = {'level': self.level, 'joliet': self.joliet, 'rr': self.rr, 'udf': self.udf, 'xa': self.xa}
+        if self.extra:
+            d['extra'] = dict(self.extra)
+        return d
 
     @staticmethod
     def from_json(d):
-        return Cfg(d['level'], d['joliet'], d['rr'], d['udf'], d['xa'])
+        return Cfg(d['level'], d['joliet'], d['rr'], d['udf'], d['xa'], d.get('extra'))
 
     def namespaces(self):
         ns = ['iso']
@@ -54,7 +63,7 @@ class Cfg:
         return ns
 
     def __repr__(self):
-        return 'Cfg(L%d j=%s rr=%s udf=%s xa=%s)' % (self.level, self.joliet, self.rr, self.udf, self.xa)
+        return 'Cfg(L%d j=%s rr=%s udf=%s xa=%s%s)' % (self.level, self.joliet, self.rr, self.udf, self.xa, ' +%d vd fields' % len(self.extra) if self.extra else '')
 
 
 ALL_CFGS = [Cfg(l, j, r, u, x) for l in (1, 2, 3, 4) for j in (None, 1, 2, 3)
